@@ -394,6 +394,28 @@ func evalCond3(c *Cond, val func(*Term) (bool, bool)) (bool, bool) {
 // test of the line (loop conditions, flags, counters) is open.
 func classEval(pc *Cond, x string, cl lineClass) (bool, bool) {
 	return evalCond3(pc, func(t *Term) (bool, bool) {
+		// the line being classified exists: the scanner call that produced it (the loop's own condition)
+		// returned true
+		// ... provided the scanner yields plain lines: a custom split function may already have dropped
+		// whole classes of lines, and then nothing is known about what reaches the body
+		if t.isCall("(*bufio.Scanner).Scan") {
+			plain := true
+			if call, ok := t.V.(*ssa.Call); ok && call.Parent() != nil {
+				eachInstr(call.Parent(), func(i ssa.Instruction) {
+					if ci, ok := i.(ssa.CallInstruction); ok && calleeName(ci) == "(*bufio.Scanner).Split" {
+						as := ci.Common().Args
+						if fn, isFn := as[len(as)-1].(*ssa.Function); !isFn || fn.String() != "bufio.ScanLines" {
+							plain = false
+						}
+					}
+				})
+			} else {
+				plain = false
+			}
+			if plain {
+				return true, true
+			}
+		}
 		return atomOnSample(t, x, cl.Sample)
 	})
 }
